@@ -125,7 +125,7 @@ type HistFamily struct {
 	VerBud    int // Verify(remember=true) of an arbitrary live leaf set as a transition
 	MaxDepth  int // 0 = unbounded (space is finite because N never decreases)
 	NoDedup   bool
-	PermLimit int // all permutations of request order for |S| <= PermLimit
+	PermLimit int    // all permutations of request order for |S| <= PermLimit
 	Collect   string // when set, violations of this property are collected instead of Or.Prop's (C17 rides on every family)
 }
 
